@@ -1641,6 +1641,19 @@ silent("c10-r14-s-remainder-test-reordered", "C10", "funsor/sum_product.py",
      "    if duration % num_segments and duration - duration % num_segments > 0:\n",
      "    if duration - duration % num_segments > 0 and duration % num_segments != 0:\n")
 
+fire("c19-r14-tensor-align-drops-dtype", "C19", "funsor/tensor.py",
+     "        data = ops.permute(self.data, permutation)\n        return Tensor(data, inputs, self.dtype)\n",
+     "        data = ops.permute(self.data, permutation)\n        return Tensor(data, inputs)\n", "R19.12", "align")
+silent("c19-r14-s-tensor-align-dtype-by-keyword", "C19", "funsor/tensor.py",
+     "        data = ops.permute(self.data, permutation)\n        return Tensor(data, inputs, self.dtype)\n",
+     "        data = ops.permute(self.data, permutation)\n        return Tensor(data, inputs, dtype=self.dtype)\n")
+fire("c19-r14-contraction-align-fallback-needs-no-progress", "C19", "funsor/cnf.py",
+     "        if not names == tuple(result.inputs):\n",
+     "        if not names == tuple(result.inputs) and result.inputs == self.inputs:\n", "R19.13", "align")
+silent("c19-r14-s-contraction-align-fallback-neq", "C19", "funsor/cnf.py",
+     "        if not names == tuple(result.inputs):\n",
+     "        if tuple(result.inputs) != names:\n")
+
 # ===== derived variants: must stay at the END of this file (they enumerate every rename() variant above) =====
 # `if c: A else: B` -> `if not c: B else: A` in the anchor functions (behaviour-preserving)
 def invert(prop, file, qual):
